@@ -1,4 +1,243 @@
 package main
 
-// classify reduces the raw failure keys to cause classes (see NOTES.md).
-func classify(fs []*finding) []*finding { return fs }
+// classify reduces the raw failure keys to cause classes (statement kind x comment position x
+// oracle, smallest failing shape first) and orders them so that new causes are reported before
+// the pervasive "comment dropped" family.
+
+import (
+	"os"
+	"sort"
+	"strings"
+)
+
+// classKey makes a key usable in known_findings.txt (one white-space free word).
+func classKey(s string) string {
+	s = strings.Join(strings.Fields(s), "_")
+	if len(s) > 140 {
+		s = s[:140]
+	}
+	return s
+}
+
+// orderUnknownFirst moves the classes that known_findings.txt does not list to the front, so that
+// the cap on reported classes (vlib keeps 40) can never hide a new cause behind accepted ones.
+func orderUnknownFirst(fs []*finding, findingsFile string) []*finding {
+	known := map[string]bool{}
+	if b, err := os.ReadFile(findingsFile); err == nil {
+		for _, ln := range strings.Split(string(b), "\n") {
+			f := strings.Fields(strings.TrimSpace(ln))
+			if len(f) >= 3 && f[0] == "finding:" && f[1] == "property=C20" && strings.HasPrefix(f[2], "class=") {
+				known[strings.TrimPrefix(f[2], "class=")] = true
+			}
+		}
+	}
+	var a, b []*finding
+	for _, f := range fs {
+		if known[f.key] {
+			b = append(b, f)
+		} else {
+			a = append(a, f)
+		}
+	}
+	return append(a, b...)
+}
+
+// construct maps a token role to the grammatical construct it belongs to.
+func construct(role string) string {
+	role = strings.TrimPrefix(role, "mapkey:")
+	c := role
+	if i := strings.IndexByte(role, '.'); i >= 0 {
+		c = role[:i]
+	}
+	switch c {
+	case "slice", "array", "map", "ptr", "base", "any", "iface":
+		return "datatype"
+	case "embed":
+		return "field"
+	}
+	return c
+}
+
+func keyField(key, name string) string {
+	for _, f := range strings.Split(key, "|") {
+		if strings.HasPrefix(f, name+"=") {
+			return strings.TrimPrefix(f, name+"=")
+		}
+	}
+	return ""
+}
+
+// attachSide: the parser attaches a comment that starts on the line of the previous token to that
+// token, every other comment to the next token.
+func attachedRole(ck, after, before string) string {
+	switch ck {
+	case "trail-line", "trail-doc", "inline-doc":
+		return after
+	}
+	return before
+}
+
+func multisetSubset(a, b []string) bool { // a ⊆ b
+	m := map[string]int{}
+	for _, x := range b {
+		m[x]++
+	}
+	for _, x := range a {
+		if m[x] == 0 {
+			return false
+		}
+		m[x]--
+	}
+	return true
+}
+
+var oracleRank = map[string]int{
+	"valid-rejected": 0, "format-panic": 1, "format-error": 1, "formatted-unparsable": 2, "ast-changed": 3, "tokens-changed": 4,
+	"scan-disagrees": 4, "not-idempotent": 5, "comment-changed": 6, "comment-duplicated": 6, "comment-lost": 7,
+}
+
+func classify(fs []*finding) []*finding {
+	type group struct {
+		f     *finding
+		rank  int
+		cases int64
+		pos   map[string]bool
+	}
+	groups := map[string]*group{}
+	add := func(class string, rank int, f *finding, pos string) {
+		g := groups[class]
+		if g == nil {
+			g = &group{f: f, rank: rank, pos: map[string]bool{}}
+			groups[class] = g
+		} else if f.size < g.f.size || (f.size == g.f.size && f.rc.Src < g.f.rc.Src) {
+			g.f = f
+		}
+		g.cases += f.count
+		if pos != "" {
+			g.pos[pos] = true
+		}
+	}
+	// base failures: keep only the minimal failing shapes (a failing program whose tokens include
+	// all tokens of a smaller failing program, for the same oracle, is the same cause)
+	var base []*finding
+	for _, f := range fs {
+		if strings.HasPrefix(f.key, "base|") || strings.HasPrefix(f.key, "valid-rejected|") {
+			base = append(base, f)
+		}
+	}
+	sort.SliceStable(base, func(a, b int) bool {
+		if base[a].size != base[b].size {
+			return base[a].size < base[b].size
+		}
+		return base[a].key < base[b].key
+	})
+	// sequence programs: when one statement fails next to >= 3 different neighbours, the neighbour is
+	// irrelevant: "import || *"
+	wild := map[string]map[string]bool{}
+	parts := func(f *finding) []string { return strings.Split(f.rc.Shape, " || ") }
+	for _, f := range base {
+		if p := parts(f); f.rc.Family == "seq" && len(p) == 2 {
+			for _, w := range []string{p[0] + " || *", "* || " + p[1]} {
+				k := f.rc.Oracle + "|" + w
+				if wild[k] == nil {
+					wild[k] = map[string]bool{}
+				}
+				wild[k][f.rc.Shape] = true
+			}
+		}
+	}
+	var minimal []*finding
+	for _, f := range base {
+		if p := parts(f); f.rc.Family == "seq" && len(p) >= 2 {
+			done := false
+			for i := 0; i+1 < len(p) && !done; i++ {
+				for _, w := range []string{p[i] + " || *", "* || " + p[i+1]} {
+					if len(wild[f.rc.Oracle+"|"+w]) >= 3 {
+						add("base|"+f.rc.Oracle+"|"+w, oracleRank[f.rc.Oracle], f, "")
+						done = true
+						break
+					}
+				}
+			}
+			if done {
+				continue
+			}
+		}
+		sub := ""
+		for _, g := range minimal {
+			if g.rc.Oracle == f.rc.Oracle && multisetSubset(g.toks, f.toks) {
+				sub = g.rc.Oracle + "|" + g.rc.Shape
+				break
+			}
+		}
+		if sub == "" {
+			minimal = append(minimal, f)
+			sub = f.rc.Oracle + "|" + f.rc.Shape
+		}
+		add("base|"+sub, oracleRank[f.rc.Oracle], f, "")
+	}
+	for _, f := range fs {
+		p := strings.Split(f.key, "|")
+		switch p[0] {
+		case "base", "valid-rejected":
+		case "crash":
+			add(f.key, 1, f, "")
+		case "values": // values|oracle|special@position
+			sp := strings.SplitN(p[2], "@", 2)
+			add("value-with-"+sp[0]+"|"+p[1], 5+oracleRank[p[1]], f, p[2])
+		case "pct": // pct|oracle|ckind|after=|before=
+			add("comment-with-percent|"+p[1], 25+oracleRank[p[1]], f, p[2]+" after "+keyField(f.key, "after")+" before "+keyField(f.key, "before"))
+		case "accepted-mutant":
+			add(f.key, 10+oracleRank[p[1]], f, "")
+		case "comment":
+			oracle, ck := p[1], p[2]
+			after, before := keyField(f.key, "after"), keyField(f.key, "before")
+			pos := ck + " after " + after + " before " + before
+			pre := ""
+			if f.rc.Family == "edge" {
+				pre = "empty-"
+			}
+			switch oracle {
+			case "comment-lost", "comment-changed", "comment-duplicated":
+				add(oracle+"|in:"+pre+construct(attachedRole(ck, after, before)), 30+oracleRank[oracle], f, pos)
+			default:
+				add(oracle+"|comment|"+pre+construct(after)+">"+construct(before), 20+oracleRank[oracle], f, pos)
+			}
+		default:
+			add(f.key, 50, f, "")
+		}
+	}
+	type kg struct {
+		k string
+		g *group
+	}
+	var gs []kg
+	for k, g := range groups {
+		gs = append(gs, kg{k, g})
+	}
+	sort.Slice(gs, func(a, b int) bool {
+		if gs[a].g.rank != gs[b].g.rank {
+			return gs[a].g.rank < gs[b].g.rank
+		}
+		if gs[a].g.f.size != gs[b].g.f.size {
+			return gs[a].g.f.size < gs[b].g.f.size
+		}
+		return gs[a].k < gs[b].k
+	})
+	var out []*finding
+	for _, e := range gs {
+		f := *e.g.f
+		f.key = classKey(e.k)
+		f.count = e.g.cases
+		if len(e.g.pos) > 0 {
+			var ps []string
+			for p := range e.g.pos {
+				ps = append(ps, p)
+			}
+			sort.Strings(ps)
+			f.rc.Positions = ps
+		}
+		out = append(out, &f)
+	}
+	return out
+}
